@@ -64,19 +64,19 @@ def wkAttrs : List Wire.Bytes :=
    "\\Unmarked", "\\Subscribed", "\\Remote", "\\All", "\\Archive", "\\Drafts", "\\Flagged", "\\Junk",
    "\\Sent", "\\Trash", "\\Important"].map ofStr
 
-/-- a flag survives the round trip: a well-known flag in its canonical spelling, anything else
-    byte for byte -/
+/-- a flag survives the round trip: byte for byte, or — for a well-known flag in any case mix —
+    in its canonical spelling (the canonicalisation is permitted, not demanded) -/
 def flagSame (input decoded : Wire.Bytes) : Bool :=
-  match wkFlags.find? (eqFold · input) with
-  | some c => decoded = c
-  | none => decoded = input
+  decoded = input || wkFlags.any fun c => eqFold c input && decoded = c
 
 /-- a mailbox attribute survives the round trip; an attribute that spells a well-known *flag*
-    (e.g. `\seen`) may come back case-normalised -/
+    (e.g. `\seen`) may come back in that flag's canonical spelling -/
 def attrSame (input decoded : Wire.Bytes) : Bool :=
-  match wkAttrs.find? (eqFold · input) with
-  | some c => decoded = c
-  | none => decoded = input || (eqFold decoded input && wkFlags.any (eqFold · input))
+  decoded = input || (wkAttrs ++ wkFlags).any fun c => eqFold c input && decoded = c
+
+/-- a mailbox name survives the round trip: byte for byte, or as `INBOX` for any case mix of it -/
+def mailboxSame (input decoded : Wire.Bytes) : Bool :=
+  decoded = input || (eqFold input (ofStr "INBOX") && decoded = ofStr "INBOX")
 
 /-! ### a strict reader of `string` (RFC 9051 `quoted` / `literal`, RFC 7888 "+") -/
 
